@@ -211,11 +211,11 @@ CON_ASSUMPTIONS = COMMON_ASSUMPTIONS + [
 
 def plan_c02(pid, tier, seed, ncpu):
     progs = scale(tier, 6400, 160000)
-    stress = scale(tier, 800, 48000)
+    stress = scale(tier, 800, 12000)
 
     def jobs(bindirs, workdir, known):
         js = con_jobs(bindirs["dbg"], workdir, known, pid, "baton", seed, max(1, ncpu * 3 // 4), programs=progs, schedules=scale(tier, 20, 50))
-        js += con_jobs(bindirs["dbg"], workdir, known, pid, "stress", seed, max(1, ncpu // 4), programs=stress, schedules=scale(tier, 5, 20))
+        js += con_jobs(bindirs["dbg"], workdir, known, pid, "stress", seed, max(1, ncpu // 4), programs=stress, schedules=scale(tier, 5, 10))
         # full-speed chase (no injected delays): windows inside get/insert that no switch point may expose
         js += con_jobs(bindirs["dbg"], workdir, known, pid, "chase", seed, 2, programs=scale(tier, 300, 8000), schedules=3)
         # a one-thread history is an interleaving too: un-synced reads/writes, idle deadlines, invalidations
@@ -379,6 +379,8 @@ def sketch_jobs(bindir, workdir, known, prop, seed, nshards, budget, big=False, 
 
 def tsan_jobs(bindir, workdir, known, prop, seed, nshards, programs):
     jobs = con_jobs(bindir, workdir, known, prop, "stress", seed + 3, nshards, programs=programs, schedules=5, variant="tsan")
+    jobs += con_jobs(bindir, workdir, known, prop, "chase", seed + 3, 2, programs=400, schedules=3, variant="tsan")
+    jobs += con_jobs(bindir, workdir, known, prop, "iter", seed + 3, 1, rounds=40, variant="tsan")
     supp = os.path.join(ROOT_DIR, "tsan.supp")
     for j in jobs:
         j["env"] = {"TSAN_OPTIONS": "suppressions=%s halt_on_error=0 exitcode=0 second_deadlock_stack=1" % supp}
@@ -511,6 +513,8 @@ def plan_c08_c11(pid, tier, seed, ncpu):
         aj = seq_jobs(a, workdir, known, pid, "safety", scale(tier, 16000, 600000), 50, seed + 1, scale(tier, 4, 8), extra=["--drop-percent", "25"], prefix="aseq")
         aj += con_jobs(a, workdir, known, pid, "stress", seed + 1, 2, programs=scale(tier, 200, 6000), schedules=5, variant="asan")
         aj += con_jobs(a, workdir, known, pid, "baton", seed + 1, 1, programs=scale(tier, 200, 6000), schedules=5, variant="asan")
+        aj += con_jobs(a, workdir, known, pid, "chase", seed + 1, 1, programs=scale(tier, 40, 1500), schedules=3, variant="asan")
+        aj += con_jobs(a, workdir, known, pid, "iter", seed + 1, 1, rounds=scale(tier, 6, 100), variant="asan")
         aj += deq_jobs(a, workdir, known, pid, seed + 1, 1, scale(tier, 8000, 200000))
         js += asan_wrap(aj, pid)
         specs = [("dequemon", ["--seed", str(seed * 13 + i), "--cases", str(scale(tier, 20, 150)), "--ops", "40"]) for i in range(scale(tier, 2, 4))]
